@@ -7,7 +7,7 @@ VARIABLES n, bad
 TInit == n = 0 /\ bad = {}
 TNext == /\ n < Len(Obs)
          /\ n' = n + 1
-         /\ bad' = D!JudgeFile(Obs[n + 1].obs)
+         /\ bad' = IF "role" \in DOMAIN Obs[n + 1].obs THEN D!JudgeHidden(Obs[n + 1].obs) ELSE D!JudgeFile(Obs[n + 1].obs)
 TSpec == TInit /\ [][TNext]_<<n, bad>>
 Report == bad = {} \/ PrintT(ToJson([id |-> Obs[n].id, bad |-> bad]))
 AllConsumed == TLCGet("stats").diameter - 1 = Len(Obs)
